@@ -401,12 +401,79 @@ def part_b(ctx, npairs, nprogs):
             shutil.rmtree(d, ignore_errors=True)
 
 
+def key_while_another_thread_saves(ctx):
+    """Keys are built on the service thread while another thread of the process (the flusher of an asynchronous cassette) encodes and
+    saves the previous recording into an S3 cassette. Explored with the deterministic scheduler (preemption points: S3 cassette
+    module and recorder); the keys must be the ones a sequential run builds. (Schedules are beyond C06's quantifier; the workload
+    only uses what the unchanged code supports.)"""
+    from vlib import sched as S
+    from vlib.fakes3 import FakeS3
+    from playback.tape_recorder import TapeRecorder
+    from playback.tape_cassettes.in_memory.in_memory_tape_cassette import InMemoryTapeCassette
+    import playback.tape_cassettes.s3.s3_tape_cassette as cmod
+    import playback.tape_recorder as rmod
+    from vlib import genclasses
+    tg = [cmod.__file__, rmod.__file__]
+    args = [u'Zo\u00eb', {u'na\u00efve': u'\u65e5\u672c'}, [u'\u00e9', 1]]
+
+    def run_op(rec):
+        ns = {'execute': rec.operation()(lambda self: [self.read(a) for a in args]),
+              'read': rec.intercept_input('c06.user')(lambda self, who: 'row')}
+        cls = genclasses.register(type('C06Concurrent', (object,), ns))
+        cls().execute()
+        cas = rec.tape_cassette
+        return sorted(k for k in cas.get_recording(cas.get_last_recording_id()).get_all_keys() if k.startswith('input:'))
+    ref_rec = TapeRecorder(InMemoryTapeCassette())
+    ref_rec.enable_recording()
+    reference = run_op(ref_rec)
+    holder = {}
+
+    def make(sched):
+        fake = FakeS3()
+        cm = fake.installed()
+        cm.__enter__()
+        s3 = fake.cassette('w', key_prefix='k', read_only=False)
+        prev = s3.create_new_recording('Prev')
+        prev.set_data(u'input: c06.user args=' + u'Zo\u00eb', {'value': [u'Zo\u00eb', u'\u65e5\u672c']})
+        prev.add_metadata({'who': u'Zo\u00eb'})
+        rec = TapeRecorder(InMemoryTapeCassette())
+        rec.enable_recording()
+        holder.update(cm=cm, out={})
+
+        def main():
+            t1 = sched.Thread(target=lambda: s3.save_recording(prev), name='saver')
+            t2 = sched.Thread(target=lambda: holder['out'].__setitem__('keys', run_op(rec)), name='service')
+            t1.start()
+            t2.start()
+            t1.join()
+            t2.join()
+        return main
+
+    def on_run(r, desc):
+        try:
+            ctx.case(('key_while_saving', r.trace), nontrivial=len(r.points) > 0)
+            ctx.count('keys_built_while_another_thread_saves')
+            if r.aborted or r.error is not None:
+                return
+            got = holder['out'].get('keys')
+            if got != reference:
+                ctx.violation('input keys built while another thread saved a recording into an S3 cassette differ from the keys of a sequential run',
+                              {'key_while_saving': True, 'schedule': desc if isinstance(desc, tuple) else list(desc),
+                               'got': got, 'sequential': reference})
+        finally:
+            holder['cm'].__exit__(None, None, None)
+    S.explore_dfs(make, tg, 1, on_run, max_runs=150 if ctx.quick else 5000, step_budget=100000)
+    S.explore_random(make, tg, 30 if ctx.quick else 1500, ctx.rng, on_run, step_budget=100000)
+
+
 def run(ctx):
     n = ctx.budget(300, 10000)
     base = ctx.seed * 1000003 + ctx.shard * 1000000
     for i in range(n):
         part_a_case(ctx, base + i)
     part_b(ctx, 4 if ctx.quick else 32, 25 if ctx.quick else 60)
+    if ctx.shard == 0:
+        key_while_another_thread_saves(ctx)
     ctx.sample(describe(callset_program(random.Random(base), base)))
     if not ctx.counters.get('replayed_calls_judged'):
         ctx.inconclusive('no call judged')
